@@ -58,3 +58,30 @@ package peer
 //@ ensures old(r.closed) || r.paused
 
 //@ census[C31] time.AfterFunc in (*Reconnector).Schedule, (*Reconnector).attemptReconnect
+
+// ---- C32: one registration per identity; stale teardown does not touch the live registration ----
+
+//@ guarded Manager.mu: peers
+
+//@ func (*Manager).registerConnection
+//@ prop C32
+//@ check lockset
+//@ modifies *
+//@ after call Lock let had = has(m.peers, conn.RemoteID)
+//@ at call readLoop assert !had && has(m.peers, conn.RemoteID) && m.peers[conn.RemoteID] == conn
+//@ at call keepaliveLoop assert !had && has(m.peers, conn.RemoteID) && m.peers[conn.RemoteID] == conn
+//@ at call dynamic.OnPeerConnected assert !had
+
+//@ func (*Manager).handleDisconnect
+//@ prop C32
+//@ check lockset
+//@ modifies *
+//@ after call Lock let hadBefore = has(m.peers, conn.RemoteID)
+//@ after call Lock let before = m.peers[conn.RemoteID]
+//@ at call Unlock assert (hadBefore && before == conn) ==> !has(m.peers, conn.RemoteID)
+//@ at call Unlock assert !(hadBefore && before == conn) ==> has(m.peers, conn.RemoteID) == hadBefore && m.peers[conn.RemoteID] == before
+//@ at call dynamic.OnPeerDisconnect assert hadBefore && before == conn
+
+//@ census[C32] (*Manager).readLoop in (*Manager).registerConnection
+//@ census[C32] (*Manager).keepaliveLoop in (*Manager).registerConnection
+//@ census[C32] dynamic.OnPeerDisconnect in (*Manager).handleDisconnect
